@@ -36,6 +36,8 @@ MIX == <<Gen("SinOsc", 2, 1, <<C(440), C(0)>>), Gen("LFNoise0", 1, 1, <<C(2)>>),
 MO == <<Gen("In", 2, 2, <<C(4)>>), Gen("WhiteNoise", 1, 1, <<>>)>>
 BIG == <<Gen("SinOsc", 2, 1, <<C(440), C(0)>>), Gen("WhiteNoise", 2, 1, <<>>), Gen("LFNoise0", 1, 1, <<C(2)>>),
          Gen("In", 2, 2, <<C(4)>>), Gen("Rand", 0, 1, <<C(0), C(1)>>)>>
+\* shared sums: x3 = 2 + saw, x4 = noise + x3 (an unused sum over them made the optimiser visit a replaced unit twice)
+SH == <<Gen("WhiteNoise", 2, 1, <<>>), Gen("Saw", 2, 1, <<C(3)>>), Bin("+", C(2), R(2, 0)), Bin("+", R(1, 0), R(3, 0))>>
 K1 == <<Ctl("k", 1, 3)>>
 K3 == <<Ctl("k", 1, 3), Ctl("a", 2, 1), Ctl("i", 0, 2)>>
 SliceTab ==
@@ -52,6 +54,7 @@ SliceTab ==
     "deadS"  :> S(AR2, <<>>, {"abs"}, {"*"}, FALSE, {}, {"SinOsc"}, {}, 2, "ReplaceOut", 2, FALSE) @@
     "ratesS" :> S(MIX, K1, {"neg"}, {"+", "*"}, TRUE, {}, {}, {2}, 1, "Out", 1, FALSE) @@
     "divS"   :> S(AR2, <<>>, {"neg"}, {"/"}, FALSE, {}, {}, {}, 2, "Out", 2, FALSE) @@
+    "reoptS" :> S(SH, <<>>, {}, {"+"}, FALSE, {3}, {}, {}, 1, "Out", 2, FALSE) @@
     "zeroS"  :> S(AR2, <<>>, {"neg"}, {"+", "*"}, FALSE, {}, {}, {0}, 1, "Out0", 2, FALSE) @@
     "localS" :> S(MIX, <<>>, {"neg"}, {"+"}, FALSE, {}, {}, {2}, 1, "LocalOut", 1, FALSE) @@
     "badS"   :> S(MIX, K1, {"neg"}, {"+", "*"}, FALSE, {}, {"Pan2", "LPF"}, {0, 2}, 1, "Out", 2, TRUE) @@
@@ -73,10 +76,10 @@ SliceTab ==
                   {"Pan2", "LPF", "SinOsc", "LFNoise0", "K2A", "DC"}, {0, 1, 0 - 1, 2, 3}, 12, "Out", 2, FALSE)
 Groups ==
     "quick" :> {"coverS", "sumS", "sum3S", "negS", "shortS", "maddS", "mulS", "opsS", "moS", "deadS", "ratesS",
-                "divS", "localS", "zeroS"} @@
-    "l2S" :> {"coverS", "shortS"} @@
+                "divS", "localS", "zeroS", "reoptS"} @@
+    "l2S" :> {"coverS", "shortS", "reoptS"} @@
     "thorough" :> {"coverS", "sumS", "sum3S", "negS", "shortS", "maddS", "mulS", "opsS", "moS", "deadS", "ratesS",
-                   "divS", "localS", "zeroS", "ops1", "dead2", "local2", "div2", "ring2"} @@
+                   "divS", "localS", "zeroS", "reoptS", "ops1", "dead2", "local2", "div2", "ring2"} @@
     \* too big to enumerate within the budget: sampled with random walks (RSpec)
     "sampled" :> {"sum3", "ring3", "neg3", "madd2", "rates2", "mo2", "ring2", "div2", "dead2", "local2", "ops1"}
 SliceNames == IF IOEnv.VERIF_SLICE \in DOMAIN Groups THEN Groups[IOEnv.VERIF_SLICE] ELSE {IOEnv.VERIF_SLICE}
